@@ -142,6 +142,12 @@ func getOrCreateAndAppendField(c *[]CollectedField, name, alias string, objectDe
 				return &(*c)[i]
 			}
 
+			// the same field selected through two interfaces: one object can
+			// implement both, so this is a single response key
+			if cf.ObjectDefinition.Kind == ast.Interface && objectDefinition.Kind == ast.Interface {
+				return &(*c)[i]
+			}
+
 			for _, ifc := range objectDefinition.Interfaces {
 				if ifc == cf.ObjectDefinition.Name {
 					return &(*c)[i]
